@@ -195,12 +195,24 @@ fn ty_is_phantom(ty: &syn::Type) -> bool {
 
 pub fn check_case(c: &DerCase, ctx: &mut Ctx) {
     let prog = c.graph.program();
-    let reg = elaborate(&prog).registry;
     let spec = spec_of(c);
+    let size = c.graph.edges.len() * 10 + c.regs.iter().filter(|r| **r != Reg::Nothing).count();
+    let replay = json!({"check": "C08", "case": serde_json::to_value(c).unwrap(), "source": prog.to_source(), "settings": serde_json::to_value(&spec).unwrap()});
+    check_program(&prog, &spec, false, replay, size, ctx);
+}
+
+/// The oracle on any source program and settings (registrations use the `::r::` / `::s::` / `#[m(r..)]` naming of
+/// `spec_of`, which is what the violation classes are read from).
+pub fn check_program(prog: &crate::spm::Program, spec: &SettingsSpec, dedup: bool, replay: serde_json::Value, size: usize, ctx: &mut Ctx) {
+    let mut reg = elaborate(prog).registry;
+    if dedup && scale_typegen::utils::ensure_unique_type_paths(&mut reg).is_err() {
+        ctx.exclude("de-duplication fails (C04)");
+        return;
+    }
+    let spec = spec.clone();
     let settings = spec.build();
     ctx.exec(1);
-    let size = c.graph.edges.len() * 10 + c.regs.iter().filter(|r| **r != Reg::Nothing).count();
-    let replay = || json!({"check": "C08", "case": serde_json::to_value(c).unwrap(), "source": prog.to_source(), "settings": serde_json::to_value(&spec).unwrap()});
+    let replay = || replay.clone();
     let tokens = match generate(&reg, &settings) {
         GenOutcome::Ok { tokens } => tokens,
         other => {
@@ -312,7 +324,18 @@ pub fn check_case(c: &DerCase, ctx: &mut Ctx) {
             must_d.extend(d.iter().cloned());
             must_a.extend(a.iter().cloned());
         }
-        let want_compact_as = compact_as.is_some() && single_uint_field(item);
+        // (a field written `#[codec(compact)] a: u32` or `a: Compact<u32>` is a compact type in the registry, not an
+        // unsigned integer, whatever the emitted field looks like with codec attributes off)
+        let compact_in_registry = reg.types.iter().any(|t| {
+            t.ty.path.segments.join("::") == r
+                && match &t.ty.type_def {
+                    TypeDef::Composite(c) => c.fields.iter().any(|f| {
+                        matches!(reg.resolve(f.ty.id).map(|x| &x.type_def), Some(TypeDef::Compact(_)))
+                    }),
+                    _ => false,
+                }
+        });
+        let want_compact_as = compact_as.is_some() && single_uint_field(item) && !compact_in_registry;
         if let (true, Some(ca)) = (want_compact_as, &compact_as) {
             must_d.insert(ca.clone());
         }
@@ -457,6 +480,73 @@ pub fn run(tier: &str, seed: u64) -> i32 {
             ctx,
         );
     }));
+    // D-generic: generic definitions (a parameter kept only in a PhantomData marker next to a single unsigned
+    // field; two instantiations under one path), codec attributes on and off, a recursive registration on the host,
+    // on the definition itself, or - the two instantiations split over two hosts - on the host of the SECOND one
+    {
+        let dg = crate::families::DGeneric {
+            max_fields: 2,
+            max_insts: 2,
+            include_cf3: false,
+            body_forms: vec![crate::families::BodyForm::Named, crate::families::BodyForm::Enum],
+            param_forms: vec![crate::families::ParamForm::One, crate::families::ParamForm::TwoSecondSkipped],
+        };
+        let (gall, _, _) = enumerate(&dg, if thorough { 4 } else { 3 }, 2_000_000);
+        let mut cases: Vec<(crate::spm::Program, SettingsSpec, String)> = vec![];
+        for (_, gs) in &gall {
+            if !crate::checks::c05::wf5_ok(gs) || gs.insts.is_empty() {
+                continue;
+            }
+            // two fields: one of them is what the CompactAs rule looks at (an unsigned integer, a compact one, a
+            // marker for an otherwise unused parameter); one field: every type of the alphabet
+            let special = |f: &crate::spm::Field| {
+                matches!(f.ty, crate::spm::Ty::Phantom(_) | crate::spm::Ty::Prim(_) | crate::spm::Ty::Compact(_)) || f.compact
+            };
+            if gs.fields.len() == 2 && !(special(&gs.fields[0]) && (special(&gs.fields[1]) || matches!(gs.fields[1].ty, crate::spm::Ty::Param(_)))) {
+                continue;
+            }
+            let prog = gs.program();
+            if gs.insts.iter().any(|a| crate::families::coincidence(&prog.defs[crate::families::G_D], a, &prog).is_err()) {
+                continue;
+            }
+            let host = prog.defs.len() - 1;
+            let mut variants: Vec<(crate::spm::Program, &str)> = vec![(prog.clone(), "p::h::Host"), (prog.clone(), "p::g::D")];
+            if gs.insts.len() == 2 {
+                let mut split = prog.clone();
+                let second = match &mut split.defs[host].body {
+                    crate::spm::Body::Struct(crate::spm::Fields::Named(fs)) => fs.pop(),
+                    _ => None,
+                };
+                if let Some((_, f)) = second {
+                    split.defs.push(crate::spm::Def::strukt(&["p", "h"], "Host2", &[], crate::spm::Fields::Named(vec![("i1".into(), f)])));
+                    split.roots.push(crate::spm::Ty::Named(host + 1, vec![]));
+                    variants.push((split, "p::h::Host2"));
+                }
+            }
+            for (p, on) in variants {
+                for codec in [true, false] {
+                    let mut spec = SettingsSpec::faithful();
+                    spec.root = "root".into();
+                    spec.derives_all = vec!["::g::Clone".into()];
+                    spec.attrs_all = vec!["#[m(g)]".into()];
+                    spec.codec_attrs = codec;
+                    spec.derives_for.push((on.to_string(), vec!["::r::D0".into()], true));
+                    spec.attrs_for.push((on.to_string(), vec!["#[m(r0)]".into()], true));
+                    cases.push((p.clone(), spec, format!("recursive registration on {on}, codec attributes {}", if codec { "on" } else { "off" })));
+                }
+            }
+        }
+        report.add(sweep(
+            "D-generic(fields<=2, instantiations<=2, coincidence-free) x {recursive registration on the host, on the definition, on the second of two hosts} x codec attributes on/off",
+            &cases,
+            Duration::from_secs(if thorough { 600 } else { 60 }),
+            |c| json!({"case": c.2, "source": c.0.to_source()}),
+            |c, ctx| {
+                let replay = json!({"check": "C08", "program_case": {"program": serde_json::to_value(&c.0).unwrap(), "settings": serde_json::to_value(&c.1).unwrap(), "dedup": true}, "source": c.0.to_source(), "note": c.2});
+                check_program(&c.0, &c.1, true, replay, 1, ctx)
+            },
+        ));
+    }
     report.assumptions = vec![
         "the recursive part is checked as two bounds, as the statement's closure clause pins it: lower = closure over generated items mentioned in field types, upper = registry reachability (fields, variants, elements, compact, type parameters) from any entry with the registered path".into(),
         "bit-order markers are substituted".into(),
@@ -465,6 +555,13 @@ pub fn run(tier: &str, seed: u64) -> i32 {
 }
 
 pub fn replay(v: &serde_json::Value) -> Result<Vec<Violation>, String> {
+    if let Some(g) = v.get("program_case") {
+        let prog: crate::spm::Program = serde_json::from_value(g["program"].clone()).map_err(|e| e.to_string())?;
+        let spec: SettingsSpec = serde_json::from_value(g["settings"].clone()).map_err(|e| e.to_string())?;
+        let mut ctx = Ctx::default();
+        check_program(&prog, &spec, g["dedup"].as_bool().unwrap_or(false), v.clone(), 1, &mut ctx);
+        return Ok(ctx.violations);
+    }
     let c: DerCase = serde_json::from_value(v["case"].clone()).map_err(|e| e.to_string())?;
     let mut ctx = Ctx::default();
     check_case(&c, &mut ctx);
